@@ -45,8 +45,29 @@ def insertAsc (x : Nat) : Cell → Cell
   | y :: ys => if x < y then x :: y :: ys else if x = y then y :: ys else y :: insertAsc x ys
 
 def eraseAsc (x : Nat) (a : Cell) : Cell := a.filter (fun y => y != x)
-def unionAsc (a b : Cell) : Cell := b.foldl (fun acc x => insertAsc x acc) a
-def diffAsc (a b : Cell) : Cell := a.filter (fun x => !b.contains x)
+/-- Union of two ascending lists by merging (`n` = fuel, at least the sum of the lengths). -/
+def unionAux : Nat → Cell → Cell → Cell
+  | 0, a, _ => a
+  | _ + 1, [], b => b
+  | _ + 1, a, [] => a
+  | n + 1, x :: xs, y :: ys =>
+    if x < y then x :: unionAux n xs (y :: ys)
+    else if y < x then y :: unionAux n (x :: xs) ys
+    else x :: unionAux n xs ys
+
+def unionAsc (a b : Cell) : Cell := unionAux (a.length + b.length) a b
+
+/-- Difference of two ascending lists by merging. -/
+def diffAux : Nat → Cell → Cell → Cell
+  | 0, a, _ => a
+  | _ + 1, [], _ => []
+  | _ + 1, a, [] => a
+  | n + 1, x :: xs, y :: ys =>
+    if x < y then x :: diffAux n xs (y :: ys)
+    else if y < x then diffAux n (x :: xs) ys
+    else diffAux n xs ys
+
+def diffAsc (a b : Cell) : Cell := diffAux (a.length + b.length) a b
 
 /-- Which kernels hand back a different object than the one they were given. -/
 structure Policy where
